@@ -506,7 +506,10 @@ fn run_map<T: El + Send + Sync>(spec: &ShardSpec, cur: Option<&str>) -> Outcome 
     let pools: usize = spec.extra.get("pools").and_then(|s| s.parse().ok()).unwrap_or(16);
     let part: usize = spec.extra.get("part").and_then(|s| s.parse().ok()).unwrap_or(0);
     let parts: usize = spec.extra.get("parts").and_then(|s| s.parse().ok()).unwrap_or(1);
-    let fam = build_family::<MapWorld<T>>(&cfg, "mut1+ch0+shape", spec.n, cap, &mut out, cur);
+    let mut fam = build_family::<MapWorld<T>>(&cfg, "mut1+ch0+shape", spec.n, cap, &mut out, cur);
+    if !T::ZST && spec.extra.get("big").map_or(true, |s| s == "1") {
+        fam.push((0..460).map(|k| Op::key(OpK::Insert, k)).collect());
+    }
     out.layers.push((fam.len() as u64, 0));
     let mut sigs = HashSet::new();
     let mut seen = HashSet::new();
@@ -582,17 +585,27 @@ fn run_set<T: El + Send + Sync>(spec: &ShardSpec, cur: Option<&str>) -> Outcome 
     let pools: usize = spec.extra.get("pools").and_then(|s| s.parse().ok()).unwrap_or(16);
     let part: usize = spec.extra.get("part").and_then(|s| s.parse().ok()).unwrap_or(0);
     let parts: usize = spec.extra.get("parts").and_then(|s| s.parse().ok()).unwrap_or(1);
-    let fam = build_family::<SetWorld<T>>(&cfg, "skey+sshape", spec.n, cap, &mut out, cur);
+    let mut fam = build_family::<SetWorld<T>>(&cfg, "skey+sshape", spec.n, cap, &mut out, cur);
+    let n_small = fam.len();
+    // two large members (one mid-resize at 460 elements, one settled at 300): size thresholds in the glue
+    if !T::ZST && spec.extra.get("big").map_or(true, |s| s == "1") {
+        fam.push((0..460).map(|k| Op::key(OpK::SInsert, k)).collect());
+        fam.push((0..300).map(|k| Op::key(OpK::SInsert, k)).collect());
+    }
     out.layers.push((fam.len() as u64, 0));
     let mut sigs = HashSet::new();
     let mut seen = HashSet::new();
     let mut obs = HashSet::new();
-    let renames: [(u32, u32); 3] = [(1, 0), (1, 3), (2, 0)];
+    let renames: [(u32, u32); 4] = [(1, 0), (1, 3), (2, 0), (1, 100_000)]; // same keys, shifted, spread, disjoint
     'all: for (i, sa) in fam.iter().enumerate() {
         if i % parts != part {
             continue;
         }
         for (j, sb0) in fam.iter().enumerate() {
+            // the large members meet each other and the first (empty) small one only
+            if (i >= n_small) != (j >= n_small) && i != 0 && j != 0 {
+                continue;
+            }
             for (ri, &(ra, rb)) in renames.iter().enumerate() {
                 // unary ops need no second operand
                 let sb = rename(sb0, ra, rb);
